@@ -282,14 +282,15 @@ Definition meaning (k : key) (v : json) : cval :=
    known to depart from the table above; outside them the table must hold exactly.
    Repaired and gone: bool keys (any JSON value by truthiness), lcd.safe_area through int(), imsc_writer.fps with signs /
    spaces / underscores / zero, colours with trailing text, components above 255 or non-ASCII digits,
-   program_start_tc with trailing text, max_row_count true/false, one-character font families. *)
+   program_start_tc with trailing text, max_row_count true/false, one-character font families; values that are not strings
+   escaping as AttributeError / TypeError (program_start_tc, font_stack, scc_reader.text_align, document_lang, log_level —
+   integers as log_level with them), sections that are not JSON objects. *)
 (* 2. undocumented-values-accepted (what is left of it) *)
 Definition upper_letter (c : Z) : bool := (65 <=? c) && (c <=? 90).
 Definition ascii_space (c : Z) : bool := ((9 <=? c) && (c <=? 13)) || (c =? 32).
 Definition trigger_lenient (k : key) (v : json) : bool :=
   match k, v with
-  (* any logging level name or integer *)
-  | KLogLevel, (JInt _ | JBool _) => true
+  (* any logging level name *)
   | KLogLevel, JStr s => one_of s ["CRITICAL"; "FATAL"; "WARNING"; "DEBUG"; "NOTSET"]%string
   (* any string *)
   | KDocumentLang, JStr s => negb (langtag_ok s)
@@ -329,21 +330,6 @@ Definition tc_any_sep (s : text) : bool :=
   | [a; b; x; c; d; y; e; f; z; g; h] =>
       forallb digit [a; b; c; d; e; f; g; h] && forallb (fun c => negb (c =? 10)) [x; y; z]
   | _ => false
-  end.
-(* 4. rejection-not-a-value-error: a value that is rejected is rejected by the decoder's ValueError ("Invalid ... value.
-   Expect: ...") — except where no decoder looks at the type of the value first: scc_reader.text_align calls .lower() on
-   whatever it is given (AttributeError, null included), general.document_lang and general.log_level have no decoder and
-   fail where they are used (ContentDocument.set_lang / logging's setLevel: TypeError).  Since the repair of
-   stl_reader.program_start_tc and font_stack these three keys are all that is left. *)
-Definition trigger_escape (k : key) (v : json) : bool :=
-  match k, v with
-  | KSccTextAlign, JStr _ => false
-  | KSccTextAlign, _ => true
-  | KDocumentLang, (JStr _ | JNull) => false
-  | KDocumentLang, _ => true
-  | KLogLevel, (JStr _ | JNull | JInt _ | JBool _) => false
-  | KLogLevel, _ => true
-  | _, _ => false
   end.
 
 (* ------------------------------------------------------------------ the command line (README "Command line":
